@@ -304,29 +304,30 @@ Theorem C17_wkc_filter_applies_to_listing : forall ls impl qs k v, relevant qs =
   wkc_render_get ls impl qs = Ok (filter_links k v (ls ++ impl_info_links impl)).
 Proof. exact wkc_single. Qed.
 Print Assumptions C17_wkc_filter_applies_to_listing.
-(* the intended statement for ANY number of criteria is their conjunction.  PARTIAL: proved for requests with at most one criterion; for two
-   or more it is false of the code (open finding C17:filter-several-criteria, refuted witnesses below) because the collected filters all
-   evaluate the last criterion *)
-Theorem C17_wkc_filter_conjunction_partial : forall ls impl qs r, (List.length (relevant qs) <= 1)%nat -> wkc_render_get ls impl qs = Ok r ->
+(* ANY number of criteria: the answer is the listing restricted, in order, to the links matching EVERY criterion; it never fails
+   (unconditional since /repo f7c02cb; the late-binding defect this check found is fixed, oracle signature C17:filter-several-criteria stays armed) *)
+Theorem C17_wkc_filter_conjunction : forall ls impl qs r, wkc_render_get ls impl qs = Ok r ->
   forall l, In l r <-> In l (ls ++ impl_info_links impl) /\ forall k v, In (k, v) (relevant qs) -> Matches k v l.
-Proof. exact wkc_conjunction_at_most_one. Qed.
-Print Assumptions C17_wkc_filter_conjunction_partial.
-Theorem C17_wkc_never_fails_partial : forall ls impl qs, (List.length (relevant qs) <= 1)%nat -> exists r, wkc_render_get ls impl qs = Ok r.
-Proof. exact wkc_total_at_most_one. Qed.
-Print Assumptions C17_wkc_never_fails_partial.
-(* what the code does instead, when all criteria take the same branch (rt/if/ct/rel | href | other): only the LAST criterion counts *)
-Theorem C17_wkc_several_criteria_only_last_applies : forall ls impl qs rel k v, relevant qs = rel ++ [(k, v)] ->
-  Forall (fun kv : string * string => kind_of (fst kv) = kind_of k) rel ->
-  wkc_render_get ls impl qs = Ok (filter_links k v (ls ++ impl_info_links impl)).
-Proof. exact wkc_several_same_kind_is_last. Qed.
-Print Assumptions C17_wkc_several_criteria_only_last_applies.
-Example C17_wkc_filter_conjunction_refuted :
+Proof. exact wkc_conjunction. Qed.
+Print Assumptions C17_wkc_filter_conjunction.
+Theorem C17_wkc_answer_is_ordered_sublist : forall ls impl qs,
+  wkc_render_get ls impl qs =
+  Ok (filter (fun l => forallb (fun kv : string * string => link_matches (fst kv) (snd kv) l) (relevant qs)) (ls ++ impl_info_links impl)).
+Proof. exact wkc_is_filter. Qed.
+Print Assumptions C17_wkc_answer_is_ordered_sublist.
+Theorem C17_wkc_never_fails : forall ls impl qs, exists r, wkc_render_get ls impl qs = Ok r.
+Proof. exact wkc_total. Qed.
+Print Assumptions C17_wkc_never_fails.
+(* the former refutation witnesses, now positive *)
+Example C17_wkc_filter_several_criteria :
   let r1 := ("/r1", [("rt", Some "foo"); ("if", Some "i1")])%string in
   let r2 := ("/r2", [("rt", Some "bar"); ("if", Some "i1")])%string in
   let r3 := ("/r3", [("rt", Some "foo"); ("if", Some "i2")])%string in
-  wkc_render_get [r1; r2; r3] None ["rt=foo"; "if=i1"]%string = Ok [r1; r2] /\ link_matches "rt" "foo" r2 = false /\
-  wkc_render_get [r1; r2; r3] None ["rt=fo*"; "href=/r1"]%string = Ok [] /\ (link_matches "rt" "fo*" r1 && link_matches "href" "/r1" r1 = true) /\
-  wkc_render_get [r1; r2; r3] None ["href=/r1"; "rt=fo*"]%string = Raise AttributeError.
+  wkc_render_get [r1; r2; r3] None ["rt=foo"; "if=i1"]%string = Ok [r1] /\
+  wkc_render_get [r1; r2; r3] None ["rt=fo*"; "href=/r1"]%string = Ok [r1] /\
+  wkc_render_get [r1; r2; r3] None ["href=/r1"; "rt=fo*"]%string = Ok [r1] /\
+  wkc_render_get [r1; r2; r3] None ["rt=foo"; "obs"; "if=i*"]%string = Ok [r1; r3] /\
+  wkc_render_get [r1; r2; r3] None ["href=/r*"; "to_py=x*"]%string = Ok [].
 Proof. vm_compute. repeat split. Qed.
 
 (* at request level: a request routed to the WKC resource answers the (filtered) listing of the root *)
